@@ -465,6 +465,51 @@ theorem adapted_negotiation_within_directive (args : List Bytes) (block : List L
   | loadErr => rw [hp] at ha; cases ha
   | unsupported => rw [hp] at ha; cases ha
 
+/-! ### pooled encoders: state shared between responses -/
+
+/-- **reuse is invisible**: whatever object the pool hands out — dirty, still pointing at another response, or
+    none at all — a response emits exactly what it would with a brand-new encoder, and hands back a clean one. -/
+theorem pool_reuse_invisible (slot : Option (EncObj α)) (id : Nat) (calls : List (EncCall α)) :
+    serveWithPool slot id calls = serveWithPool none id calls ∧ (serveWithPool slot id calls).2 = ⟨none, []⟩ := by
+  cases slot <;> exact ⟨rfl, rfl⟩
+
+/-- every byte the encoder emits goes to the CURRENT response's writer … -/
+theorem pooled_encoder_emits_to_current_response (slot : Option (EncObj α)) (id : Nat) (calls : List (EncCall α)) :
+    ∀ e ∈ (serveWithPool slot id calls).1, e.dest = some id := by
+  rw [(pool_reuse_invisible slot id calls).1]
+  intro e he
+  have he' : e ∈ ((⟨some id, []⟩ : EncObj α).calls calls).2 ++
+      ((((⟨some id, []⟩ : EncObj α).calls calls).1).call .close).2 := he
+  obtain ⟨a, b⟩ := calls_dest calls (⟨some id, []⟩ : EncObj α)
+  rcases List.mem_append.mp he' with h1 | h1
+  · exact b e h1
+  · rw [(call_dest _ .close).2 e h1, a]
+
+/-- … and what it emits is exactly what THIS response handed to it, in order -/
+theorem pooled_encoder_emits_what_was_written (slot : Option (EncObj α)) (id : Nat) (calls : List (EncCall α)) :
+    (serveWithPool slot id calls).1.flatMap Emit.payloads = writesOf calls := by
+  rw [(pool_reuse_invisible slot id calls).1]
+  have h := calls_payloads calls (⟨some id, []⟩ : EncObj α)
+  show (((⟨some id, []⟩ : EncObj α).calls calls).2 ++
+      ((((⟨some id, []⟩ : EncObj α).calls calls).1).call .close).2).flatMap Emit.payloads = writesOf calls
+  have hc : ∀ o : EncObj α, (o.call .close).2.flatMap Emit.payloads = o.pending := by
+    intro o; simp [EncObj.call, Emit.payloads]
+  rw [List.flatMap_append, hc, h]; rfl
+
+/-- any number of responses through one pool slot: each is served as if it were alone -/
+theorem pooled_sequence_independent : ∀ (rs : List (Nat × List (EncCall α))) (slot : Option (EncObj α)),
+    serveSeq slot rs = rs.map (fun r => (serveWithPool none r.1 r.2).1)
+  | [], _ => rfl
+  | (id, calls) :: rest, slot => by
+    simp only [serveSeq, List.map_cons]
+    rw [pooled_sequence_independent rest, (pool_reuse_invisible slot id calls).1]
+
+/-- the `Reset` of `init` is what makes it so: without it a dirty pooled object sends the previous response's
+    leftovers, and this response's bytes, to the previous response's writer -/
+theorem reset_is_needed :
+    (serveWithoutReset (some (⟨some 7, [99]⟩ : EncObj Nat)) [.write 1]).1 = [.data (some 7) [99, 1], .trailer (some 7)] := by
+  decide
+
 /-! ### ties to the source: facts REGENERATED from /repo on every run (tools/extract → Gen/Encode.lean).
     A change of one of these literals / call sequences in the Go source changes `Gen.*` and the theorem below
     no longer elaborates — the proof obligation breaks without any sampled case having to hit it. -/
@@ -486,6 +531,13 @@ theorem default_matcher_matches_source :
 theorem constants_match_source :
     CaddyModel.Gen.encodeDefaultMinLength = some defaultMinLength ∧ CaddyModel.Gen.encodeSniffLen = some sniffLen := by
   decide
+
+/-- the lifecycle of a pooled encoder in the model (`serveWithPool`: Get, Reset to the current response; Close,
+    Reset(nil), Put) is the call sequence of `responseWriter.init` / `Close` in the source — a change that
+    forgets a `Reset` changes the regenerated fact and this obligation breaks -/
+theorem encoder_lifecycle_matches_source :
+    lifecycleInit = CaddyModel.Gen.encodeEncoderLifecycleInit ∧
+      lifecycleClose = CaddyModel.Gen.encodeEncoderLifecycleClose := by decide
 
 /-- the formats used when a directive names none are those of `UnmarshalCaddyfile` -/
 theorem caddyfile_defaults_match_source :
